@@ -623,8 +623,40 @@ class Sc:
         self.mrec("human" if who == "human" else "ai", path=p, s=int(who[1:]) if who != "human" else 0, ys=[self.lid(l) for l in ls])
         self.log.append({"op": "put", "who": who, "path": p, "pos": pos, "texts": new})
 
+    def t_fixed_pending(self, which):
+        """witnesses of two repaired losses of pending AI lines (ghost oracle only: the per-file model script has no
+        partial commit / path checkout):
+        stash-after-partial-commit  agent inserts 2 lines in f; a partial commit of ANOTHER file leaves them pending in
+                                    INITIAL; plain `git stash` (no subcommand); `git stash pop`; commit (bc4ff2a4, stash_hooks.rs)
+        stage-edit-checkout         agent inserts a line; `git add f`; a person appends a line; `git checkout -- f`; commit:
+                                    the staged AI line survives (11d1e52e, checkout_hooks.rs)"""
+        self.model_ok = False
+        self.base(nfiles=2)
+        f, other = self.files[0], self.files[1]
+        if which == "stash-after-partial-commit":
+            self.put("s1", f, 3, ["P1 ai pending", "P2 ai pending"])
+            self.put("human", other, 2, ["P3 person other file"])
+            self.git("add", other)
+            self.git("commit", "-q", "-m", "partial: the other file only")
+            self.git("stash")
+            self.git("stash", "pop")
+            self.commit("after stash pop")
+            self.check_tip("after partial commit + stash + pop + commit")
+        else:
+            self.put("s1", f, 1, ["Q1 ai staged"])
+            self.git("add", f)
+            ls = self.lines(f)
+            self.ghost[norm("Q2 person unstaged")] = None
+            self.write(f, ls + ["Q2 person unstaged"])
+            self.git("checkout", "--", f)
+            self.commit("after path checkout")
+            self.check_tip("after add + edit + checkout -- f + commit")
+        return which
+
     def t_fixed(self, which):
         """witnesses of the two repaired defects of the content-replay path (3d512cdb, 5c3b3e4a)"""
+        if which in FIXED_PENDING:
+            return self.t_fixed_pending(which)
         self.base(nfiles=1)
         p = self.files[0]
         self.upmode = "above"
@@ -712,7 +744,8 @@ elif mode == "drop" and len(picks) >= 2:
 open(path, "w").write("\\n".join(lines))
 '''
 
-FIXED = ["mixed-block-rebase", "mixed-block-cherry-pick", "rewritten-later-drop", "rewritten-later-keep", "rewritten-later-drop-human"]
+FIXED_PENDING = ["stash-after-partial-commit", "stage-edit-checkout"]
+FIXED = ["mixed-block-rebase", "mixed-block-cherry-pick", "rewritten-later-drop", "rewritten-later-keep", "rewritten-later-drop-human"] + FIXED_PENDING
 
 TEMPLATES = [("fixed:" + w, (lambda w: lambda s: s.t_fixed(w))(w)) for w in FIXED] + [
     ("rebase", lambda s: s.t_rebase()), ("rebase-onto", lambda s: s.t_rebase(onto=True)),
@@ -740,6 +773,8 @@ def family(tname, sc):
     touched ("upstream-other-file"); otherwise the content-replay path runs, which carries known
     findings."""
     up = getattr(sc, "upmode", None)
+    if tname.startswith("fixed:") and tname[6:] in FIXED_PENDING:
+        return tname[6:]
     if tname.startswith("fixed:"):
         return "cherry-pick[upstream-touches-tracked-file]" if "cherry-pick" in tname else (
             "rebase[upstream-touches-tracked-file]" if tname.endswith("mixed-block-rebase") else "rebase-interactive")
@@ -902,7 +937,7 @@ def phase(res, seeds, threads=16, fixed=False):
 
 def run(tier, seed):
     res = C.Result(PROP, tier, seed)
-    res.rule = ("end-to-end: 5 fixed regression scenarios of the content-replay path (block of several authors through rebase / cherry-pick; a line rewritten by a later commit of the range, kept / dropped / written by a person) run first, then 25 scenario templates (rebase plain/--onto/-i reorder|squash|fixup|drop, conflict continue|abort|skip, "
+    res.rule = ("end-to-end: 7 fixed regression scenarios — 5 of the content-replay path (block of several authors through rebase / cherry-pick; a line rewritten by a later commit of the range, kept / dropped / written by a person) and 2 of pending AI lines (plain `git stash` after a partial commit of another file; `git checkout -- f` after staging an AI line and editing further) — run first, then 25 scenario templates (rebase plain/--onto/-i reorder|squash|fixup|drop, conflict continue|abort|skip, "
                 "cherry-pick single|range|-n, amend, merge --squash, reset --soft|--mixed + recommit, stash/pop with upstream "
                 "changes, switch/checkout -m carrying work, failing and dry-run operations, a real rebase after a no-op or aborted one) with randomised edits, sessions and "
                 "upstream change positions (other file, above, below, both); non-trivial = more than 4 executed steps")
